@@ -11,6 +11,10 @@ AMBIENT = [
     ("wall-clock", re.compile(r"^std::time::(Instant|SystemTime)::now$")),
     ("wall-clock", re.compile(r"^tokio::time::(instant::)?Instant::now$")),
     ("wall-clock", re.compile(r"^time::.*::now(_utc|_local)?$")),
+    ("random-hash-seed", re.compile(r"RandomState(<[^>]*>)?::new$|RandomState as core::default::Default>::default$|^ahash::|^fastrand::|Uuid::new_v4$")),
+    ("wall-clock", re.compile(r"^std::time::(Instant|SystemTime)::elapsed$|^tokio::time::(instant::)?Instant::elapsed$")),
+    ("filesystem", re.compile(r"^std::fs::|^tokio::fs::")),
+    ("host", re.compile(r"^std::thread::available_parallelism$|^num_cpus::|^hostname::")),
     ("env", re.compile(r"^std::env::")),
     ("thread-id", re.compile(r"^std::thread::(current|Thread::id)$")),
     ("process-id", re.compile(r"^std::process::id$")),
@@ -35,6 +39,10 @@ def direct_effects(body):
                 ta = " ".join(c.targs)
                 if ("HashMap<" in ta or "HashSet<" in ta) and "RandomState" in ta or (("HashMap<" in ta or "HashSet<" in ta) and "BuildHasher" not in ta and "Hasher" not in ta):
                     out.append(("hash-order-iteration", nm + " on " + ta[:60], c.span, c.bb))
+    # address-dependent values: pointer -> integer casts
+    for (bb, i, dst, rv, sp) in body.assignments():
+        if rv.get("k") == "cast" and "Expose" in str(rv.get("ck", "")):
+            out.append(("address-dependent", "pointer-to-integer cast", sp, bb))
     # de-duplicate per (effect, span)
     seen = set()
     res = []
